@@ -36,7 +36,8 @@ def cases(draw):
     sp = draw(gen.space_spec(max_d=2, max_m=30))
     cfg = {"space": sp, "lineup": draw(gen.lineup_spec(kinds=["halton", "rseq", "uniform", "pso", "best"], min_len=1, max_len=3,
                                                          max_bs=3)),
-           "loss": {"kind": "minkowski", "p": 2, "weights": None, "filters": None}, "model": draw(st.sampled_from(["gauss", "ar1"])),
+           "loss": {"kind": "minkowski", "p": 2, "weights": None, "filters": None},
+           "model": draw(st.sampled_from(["gauss", "ar1", "tiny"])),
            "D": draw(st.integers(1, 2)), "N": draw(st.integers(4, 8)), "E": draw(st.integers(1, 2)),
            "seed": draw(st.integers(0, 2**32 - 2)), "n_jobs": 1, "verbose": False}
     return {"cfg": cfg, "k": draw(st.integers(0, 3)), "previous": draw(st.sampled_from([True, True, False])),
@@ -230,6 +231,22 @@ def check_json(ctx: Ctx, case):
                     ctx.fail("C06/json-hybrid-restored", f"an exception raised at line event {j} of the save leaves a folder that "
                              f"restores as neither the previous nor the new checkpoint: {info}", sub, one)
                     return
+                # the error was transient (disk full, interrupt): the next save completes - the folder must then hold exactly
+                # the new checkpoint, whatever the failed attempt left behind
+                if os.path.isdir(work):
+                    try:
+                        cal.create_checkpoint(work)
+                    except Exception as e2:  # noqa: BLE001
+                        # a save that refuses to write over the debris is loud, not a silent mixture: outside this property
+                        ctx.classes[f"{sub}:save-after-failed-save->raises-{type(e2).__name__}"] += 1
+                        j += 1
+                        continue
+                    v2, info2 = verdict_json(work, model, None, snap_n)
+                    ctx.classes[f"{sub}:save-after-failed-save->{v2}"] += 1
+                    if v2 != "N":
+                        ctx.fail("C06/json-hybrid-restored", f"after an exception at line event {j} of one save, the next (complete) "
+                                 f"save leaves a folder that does not restore as the new checkpoint ({v2}: {info2})", sub, one)
+                        return
                 j += 1
                 if j > 600:
                     raise RuntimeError("save never completed")
